@@ -105,7 +105,7 @@ c.ensures('otherwise-a-local-of-this-call', 'index not in old(_call.params) and 
 c.ensures('readable-afterwards', 'self.get_variable(index) == value')
 
 # ---- leaving
-c = contract(CS, 'CallStack.unwind_loops', serves=['C03', 'C04', 'C05'])
+c = contract(CS, 'CallStack.unwind_loops', serves=['C03', 'C04', 'C05', 'C06'])
 def _setup(b, case):
     S = _cs(b)
     I = b.I
@@ -169,7 +169,7 @@ def call_and_return(self, f, p, q, g, gv, a1, a2, newval, loops):
 '''
 for same_name in (0, 1):
     for loops in (0, 1, 2):
-        c = contract('bardolph/vm/machine.py', 'call_and_return', serves=['C03', 'C01', 'C04', 'C05'], src=SRC,
+        c = contract('bardolph/vm/machine.py', 'call_and_return', serves=['C03', 'C01', 'C04', 'C05', 'C06'], src=SRC,
                      name='lemma:call-sequence[param %s global, %d loops]' % ('hides' if same_name else 'differs from', loops))
         def _setup(b, case, same_name=same_name, loops=loops):
             m = lib.machine(b, 'LOGICAL', lib.light_set_with(b, {}))
@@ -236,3 +236,70 @@ def _setup(b, case):
     return {'m': m, 'out': out, 'name': 'level', 'global_value': b.sym('int', 'global_value'), 'arg': b.sym('int', 'arg')}
 c.setup(_setup)
 c.ensures('the-parameter-not-the-hidden-global', "len(ghost('Calls')) == 1 and ghost('Calls')[0][2][0] == '{level}'.format(level=arg)")
+
+
+# ---- calls compose: a pending operand of the caller's expression survives the call; a call made and finished INSIDE the
+#      callee's loops does not disturb the callee's own return; a later call from the same frame starts from a clean
+#      frame (nothing of an earlier callee's parameters is left to capture an assignment)
+SRC_NEST = '''
+def nested_calls(self, f, h, p, g, gv, a1, pending, newg, loops):
+    from bardolph.vm.instruction import Instruction
+    from bardolph.controller.routine import Routine
+    self._routines[f] = Routine(f, 100)
+    self._routines[h] = Routine(h, 200)
+    cs = self._call_stack
+    stack = self._vm_math._eval_stack
+    cs.put_variable(g, gv)                      # a global named like f's parameter when g is p
+    stack.push(pending)                         # {pending + [f a1]}: the left operand waits on the operand stack
+    depth = len(stack._stack)
+    self._program = [Instruction(OpCode.CTX), Instruction(OpCode.PARAM, p, Register.RESULT), Instruction(OpCode.JSR, f),
+                     Instruction(OpCode.END_CTX),
+                     Instruction(OpCode.CTX), Instruction(OpCode.JSR, h), Instruction(OpCode.END_CTX), Instruction(OpCode.RETURN)]
+    self._reg.pc = 0
+    self._ctx()
+    self._reg.result = a1
+    self._reg.pc = 1
+    self._param()
+    self._reg.pc = 2
+    self._jsr()                                 # in f
+    for _ in range(loops):
+        self._loop()
+    self._reg.pc = 4                            # f's body calls h (no parameters) from inside its loops ...
+    self._ctx()
+    self._reg.pc = 5
+    self._jsr()
+    in_h = self._reg.pc
+    self._reg.pc = 7
+    self._return()                              # ... and h returns into f's loop body
+    back_in_f = self._reg.pc
+    p_in_f = cs.get_variable(p)
+    self._reg.pc = 7
+    self._return()                              # f returns from inside its loops
+    after_f = self._reg.pc
+    kept = len(stack._stack) == depth and stack.top is pending
+    self._reg.pc = 4                            # a second call from the same frame: h assigns the global g
+    self._ctx()
+    self._reg.pc = 5
+    self._jsr()
+    cs.put_variable(g, newg)
+    self._reg.pc = 7
+    self._return()
+    return (in_h, back_in_f, p_in_f, after_f, kept, self._reg.pc, cs.get_variable(g))
+'''
+for same_name in (0, 1):
+    for loops in (0, 1, 2):
+        c = contract('bardolph/vm/machine.py', 'nested_calls', serves=['C03', 'C01', 'C02', 'C05'], src=SRC_NEST,
+                     name='lemma:pending operand; f calls h inside %d loops and returns; h again [param %s global]' % (loops, 'hides' if same_name else 'differs from'))
+        def _setup(b, case, same_name=same_name, loops=loops):
+            m = lib.machine(b, 'LOGICAL', lib.light_set_with(b, {}))
+            f, h, p, g = names(b, 'f', 'h', 'p', 'g')
+            if same_name:
+                g = p
+            v = {n: b.sym('int', n) for n in ('gv', 'a1', 'pending', 'newg')}
+            return {'self': m, 'f': f, 'h': h, 'p': p, 'g': g, 'gv': v['gv'], 'a1': v['a1'], 'pending': v['pending'], 'newg': v['newg'], 'loops': loops}
+        c.setup(_setup)
+        c.bounded('%d loop frames' % loops)
+        c.ensures('inner-call-enters-h-and-comes-back-into-f', 'result[0] == 200 and result[1] == 6 and result[2] == a1')
+        c.ensures('f-returns-to-its-own-caller', 'result[3] == 3')
+        c.ensures('the-pending-operand-is-still-on-top', 'result[4] is True')
+        c.ensures('second-call-returns-and-its-assignment-reaches-the-global', 'result[5] == 6 and result[6] == newg')
